@@ -613,6 +613,7 @@ def rule_lc_toggle(ctx: Ctx) -> None:
 
 
 KNOCKOUTS = [
+    Knockout("lc-equivalent-order-dropped-on-exception", "graphiq/backends/graph/state.py", sub_once("        nodelist = list(self.data.nodes)\n        if set(nodelist) != set(other_graph.data.nodes):", "        try:\n            nodelist = sorted(self.data.nodes)\n        except TypeError:\n            nodelist = None\n        if nodelist is not None and set(nodelist) != set(other_graph.data.nodes):"), "node.common-order", "exception handler"),
     Knockout("rank-shortcut-one-early", LCE, sub_once("    if rank >= 4 * n_nodes:\n", "    if rank >= 4 * n_nodes - 1:\n"), "lc.rank-shortcut", "threshold"),
     Knockout("lc-equivalent-own-node-orders", "graphiq/backends/graph/state.py", sub_once("        g2 = nx.to_numpy_array(other_graph.data, nodelist=nodelist).astype(int)\n", "        g2 = nx.to_numpy_array(other_graph.data).astype(int)\n"), "node.common-order", "Graph.lc_equivalent", on_fixed_only=True),
     Knockout("local-complementation-gamma-on-the-right", LCE, sub_once("            gamma_matrix @ adj_matrix\n", "            adj_matrix @ gamma_matrix\n"), "lc.matrix-form", "bracket"),
